@@ -51,7 +51,9 @@ func TestC10Enum(t *testing.T) {
 			for ri, reg := range []string{"echo", "assign"} {
 				// the three ways a TLS configuration can supply its certificate, spread over the configurations
 				via := []string{"", "getcertificate", "getconfig"}[(si+ri)%3]
-				cfg := SrvCfg{Transport: "tcp-tls", Comp: []string{"none"}, Enc: []string{"tls"}, Schemes: schemes, Auth: standardAuth(schemes), Register: reg, Mode: mode, TLSVia: via}
+				// ... and the compression lists: the usual one, one with an option the transport lacks, one that shares nothing with the transport
+				comp := [][]string{{"none"}, {"none", "gzip"}, {"gzip"}}[(si+2*ri)%3]
+				cfg := SrvCfg{Transport: "tcp-tls", Comp: comp, Enc: []string{"tls"}, Schemes: schemes, Auth: standardAuth(schemes), Register: reg, Mode: mode, TLSVia: via}
 				alpha := srvAlphabet(&cfg, false)
 				// both branches: a client that expects negotiation and one that skips it
 				for _, neg := range []bool{true, false} {
@@ -165,7 +167,11 @@ func TestC10(t *testing.T) {
 		c := genSrvCase(rt, []string{"direct", "server"})
 		c.Cfg.Transport = "tcp-tls"
 		c.Cfg.Enc = []string{"tls"}
+		if rapid.IntRange(0, 3).Draw(rt, "compNothingShared") == 0 {
+			c.Cfg.Comp = []string{"gzip"} // shares nothing with what the transport supports
+		}
 		o := &Outcome{NonTrivial: true}
+		o.Class("comp=" + strings.Join(c.Cfg.Comp, "+"))
 		rec.Journal(c)
 		var obs *SrvObs
 		rapid.SyncTest(rt, func(rt *rapid.T) { obs = RunServerScript(c) })
